@@ -943,7 +943,7 @@ func (x *c14ctx) r2(tab, cen *c14mapUse) {
 			}
 		}
 	}
-	c.Floor("C14.R2:map-accesses", n, 12)
+	c.Floor("C14.R2:map-accesses", n, 5)
 
 	// read buffer
 	nb := 0
